@@ -68,6 +68,11 @@ def info(W):
         big = np.zeros((2 * n, 2 * n))
         big[::2, ::2] = m
         m = big[::2, ::2]                              # a non-contiguous view
+    elif _calls[0] % 8 == 7 and len(W) > 1:
+        # symmetric only up to rounding (what inv(cov) or R diag(w) R^T produce): upper off-diagonal entries moved by one ulp
+        for i in range(len(W)):
+            for j in range(i + 1, len(W)):
+                m[i, j] = np.nextafter(m[i, j], np.inf)
     elif _calls[0] % 8 == 3:
         m.setflags(write=False)                        # a read-only array: the library has no business writing into its inputs
     return m
